@@ -1,4 +1,5 @@
 import PyaModel.Core.TypeEval
+import PyaModel.Spec.D14
 /-!
 # Spec/TypeEvalSpec — the reference interpreter of docs/type_evaluation.md, and the exception classes of C20
 
@@ -160,33 +161,82 @@ def isPass : Stmt → Bool
   | .pass => true
   | _ => false
 
-def mixed (r : EvalRet) : Bool := !r.all Option.isSome && r.any Option.isSome
-
 mutual
-/-- **class `fallThrough`** (instrumented run of the model): in some executed block a statement returns
-for some union members and falls through for others (its `CombinedReturn` mixes values and `None`) and is
-followed by statements other than `pass`: `visit_block` (:655) keeps the returns and goes on with the
-*un-narrowed* variables, so the members that already returned are evaluated again by the rest. -/
-def ftStmt (tbl : ClassTable) (ps : Positions) (e : Env) : Stmt → Bool
+/-- Instrumented run of the model: does `pc` hold at some executed `if` condition (with the environment
+it is evaluated in), or `pb` at some executed statement that does not return for every member (with its
+flattened result and the statements that follow it in its block)? -/
+def walkStmt (tbl : ClassTable) (ps : Positions) (pc : Env → Cond → Bool)
+    (pb : EvalRet → List Stmt → Bool) (e : Env) : Stmt → Bool
   | .ite c body orelse =>
-    let r := evalCond tbl ps e c
-    (match r.left, r.right with
-     | some l, some rr => ftBlock tbl ps (e.over l) body || ftBlock tbl ps (e.over rr) orelse
-     | some l, none => ftBlock tbl ps (e.over l) body
-     | none, some rr => ftBlock tbl ps (e.over rr) orelse
+    pc e c ||
+    (let r := evalCond tbl ps e c
+     match r.left, r.right with
+     | some l, some rr => walkBlock tbl ps pc pb (e.over l) body || walkBlock tbl ps pc pb (e.over rr) orelse
+     | some l, none => walkBlock tbl ps pc pb (e.over l) body
+     | none, some rr => walkBlock tbl ps pc pb (e.over rr) orelse
      | none, none => false)
   | _ => false
-def ftBlock (tbl : ClassTable) (ps : Positions) (e : Env) : List Stmt → Bool
+def walkBlock (tbl : ClassTable) (ps : Positions) (pc : Env → Cond → Bool)
+    (pb : EvalRet → List Stmt → Bool) (e : Env) : List Stmt → Bool
   | [] => false
   | s :: ss =>
-    ftStmt tbl ps e s ||
+    walkStmt tbl ps pc pb e s ||
       (let r := (evalStmt tbl ps e s).1
        if r.all Option.isSome then false
-       else (r.any Option.isSome && !ss.all isPass) || ftBlock tbl ps e ss)
+       else pb r ss || walkBlock tbl ps pc pb e ss)
 end
 
+/-- **class `fallThrough`**: in some executed block a statement returns for some union members and falls
+through for others (its `CombinedReturn` mixes values and `None`) and is followed by statements other
+than `pass`: `visit_block` (:655) keeps the returns and goes on with the *un-narrowed* variables, so the
+members that already returned are evaluated again by the rest. -/
 def D20_fallThrough (tbl : ClassTable) (ps : Positions) (e : Env) (body : List Stmt) : Bool :=
-  ftBlock tbl ps e body
+  walkBlock tbl ps (fun _ _ => false) (fun r ss => r.any Option.isSome && !ss.all isPass) e body
+
+def nonEmptyMap : Option VarMap → Bool
+  | some (_ :: _) => true
+  | _ => false
+
+mutual
+/-- does evaluating the condition hit the early `return` of `visit_BoolOp` (:534 / :560) while earlier
+operands matched partially, with a non-empty variable map? -/
+def dropCond (tbl : ClassTable) (ps : Positions) (e : Env) : Cond → Bool
+  | .not c => dropCond tbl ps e c
+  | .and cs => dropAnd tbl ps e false cs
+  | .or cs => dropOr tbl ps e false cs
+  | _ => false
+def dropAnd (tbl : ClassTable) (ps : Positions) (e : Env) (rem : Bool) : List Cond → Bool
+  | [] => false
+  | c :: cs =>
+    dropCond tbl ps e c ||
+    (let r := evalCond tbl ps e c
+     match r.left, r.right with
+     | none, rr => rem && nonEmptyMap rr
+     | some l, none => dropAnd tbl ps (e.over l) rem cs
+     | some l, some _ => dropAnd tbl ps (e.over l) true cs)
+def dropOr (tbl : ClassTable) (ps : Positions) (e : Env) (rem : Bool) : List Cond → Bool
+  | [] => false
+  | c :: cs =>
+    dropCond tbl ps e c ||
+    (let r := evalCond tbl ps e c
+     match r.left, r.right with
+     | none, some rr => dropOr tbl ps (e.over rr) rem cs
+     | none, none => false
+     | some l, none => rem && nonEmptyMap (some l)
+     | some _, some rr => dropOr tbl ps (e.over rr) true cs)
+end
+
+/-- **class `boolOpDrop`**: an executed `and` (`or`) has an operand that is false (true) for every member
+still under consideration *after* earlier operands matched only part of the union: `visit_BoolOp`
+returns that operand's variable map alone (:534‥537 / :560‥563) and forgets `remaining_varmaps`, so the
+members set aside by the earlier operands never reach the `else` (`if`) branch. -/
+def D20_boolOpDrop (tbl : ClassTable) (ps : Positions) (e : Env) (body : List Stmt) : Bool :=
+  walkBlock tbl ps (dropCond tbl ps) (fun _ _ => false) e body
+
+/-- What the reporting pipeline shows of the `show_error`s that fired in one call: every
+`UserRaisedError` is reported on the call node with code `incompatible_call` (signature.py:1356‥1364)
+and `show_error` keeps one diagnostic per (node, error code) (node_visitor.py:613): the first. -/
+def reported (fired : List String) : List String := fired.take 1
 
 /-- **class `multiError`**: two or more `show_error` calls execute in one call; the reporting pipeline
 keeps one diagnostic per (node, error code) (node_visitor.py:613), so only the first reaches the user. -/
@@ -201,6 +251,46 @@ def D20_ellipsisDefault (c : EvalCase) : Bool :=
   | some (poss, _) => poss.any fun np =>
       np.2 == .dflt && (c.params.any fun p => p.name == np.1 && (match p.dflt with | .ann _ => true | _ => false))
 
+/-! ## Decidable side conditions of the union-distribution theorem -/
+
+mutual
+/-- the types a body can return -/
+def Stmt.rets : Stmt → List Ty
+  | .ret t => [t]
+  | .ite _ b o => Stmt.retsL b ++ Stmt.retsL o
+  | _ => []
+def Stmt.retsL : List Stmt → List Ty
+  | [] => []
+  | s :: ss => s.rets ++ Stmt.retsL ss
+end
+
+/-- a returned type is a value `unite_values` leaves alone: not `Annotated[A | B]`, not a one-member or
+duplicate-carrying union, and its members are hashable -/
+def okRet (t : Ty) : Bool :=
+  !isAnnUnion t && !nonNormalUnion t && (flatten1 t).all fun y => Ty.hashEq y y
+
+def retsOK (retAnn : Ty) (body : List Stmt) : Bool := (retAnn :: Stmt.retsL body).all okRet
+
+/-- the members of a normal union: at least two, none a union, all hashable, pairwise different -/
+def goodMembers (S0 : List Ty) : Bool :=
+  decide (2 ≤ S0.length) && S0.all (fun m => !isUnionVal m && Ty.hashEq m m) && !hasDupMembers.dupIn S0
+
+/-- exactly one entry of the call's variables is for `x`, it holds a (plain) union, and no other entry
+holds a union -/
+def oneUnionB (x : String) : VarMap → Bool
+  | [] => false
+  | (k, t) :: rest =>
+    if k = x then
+      (match t with | .union _ => true | _ => false) && rest.all fun kv => kv.1 != x && !isUnionVal kv.2
+    else !isUnionVal t && oneUnionB x rest
+
+/-- `x` is the one union-typed variable and its union is normal -/
+def unionArgOK (x : String) (vars : VarMap) : Bool :=
+  oneUnionB x vars && (match vars.lookup x with | some (.union S0) => goodMembers S0 | _ => false)
+
+/-- every other variable holds a hashable value -/
+def othersOK (x : String) (vars : VarMap) : Bool := vars.all fun kv => kv.1 == x || Ty.hashEq kv.2 kv.2
+
 /-- number of union-typed variables of a call -/
 def unionCount (vars : VarMap) : Nat := (vars.filter fun kv => isUnionVal kv.2).length
 
@@ -211,6 +301,7 @@ def d20Classes (tbl : ClassTable) (c : EvalCase) : List String :=
   | some (poss, vars) =>
     let e := Env.ofList vars
     (if D20_ellipsisDefault c then ["ellipsisDefault"] else []) ++
+    (if D20_boolOpDrop tbl poss e c.body then ["boolOpDrop"] else []) ++
     (if D20_fallThrough tbl poss e c.body then ["fallThrough"] else []) ++
     (if D20_overlapNarrow tbl vars c.body then ["overlapNarrow"] else []) ++
     (if D20_retyped tbl vars c.body then ["retyped"] else []) ++
